@@ -4,16 +4,15 @@
  "file": "driver.c", "function": "buildexe", "also_functions": ["spawn", "succeeded"],
  "properties": {"C17": "contract", "C18": "contract", "C19": "safety"},
  "mode": "dfcc", "enforce": "buildexe/buildexe_contract",
- "replace_calls": {"fatal": "osm_oom"},
+ "replace_calls": {"arrayaddptr": "rec_arrayaddptr", "arrayaddbuf": "rec_arrayaddbuf"},
  "kind": "bounded", "bound": "at most 3 inputs (the two loops of buildexe run over the inputs)",
- "unwind": 8, "unwindset": ["osm_posix_spawnp.0:41", "memcpy.0:50"],
- "cflags": ["-DOSM_MAXARGV=40"],
+ "unwind": 8, "unwindset": ["osm_posix_spawnp.0:33", "rec_arrayaddptr.0:29", "expect.0:29"],
  "noreturn_macros": false, "stubs": ["os_model.c"], "link_repo": ["util.c"],
  "timeout": 200,
  "expects": ["assertion_verif", "assigns"],
  "assumes": ["OS model stubs/os_model.c: waitpid() on the live linker process does not fail and reports it once, with any status word",
              "the linker can be started (posix_spawnp succeeds); the failing case is unit DRV.buildexe.spawnfail",
-             "util.c's fatal() (realloc failure inside arrayadd) ends the path",
+             "util.c's arrayaddptr/arrayaddbuf are replaced by rec_arrayaddptr/rec_arrayaddbuf = 'append these words to the vector' without reallocation (their contract, proved on the real functions by UTIL.arrayaddptr / UTIL.arrayaddbuf): with the real ones the symbolic vector length exhausts 8 GB",
              "flags.verbose is off; the link base command has 5 words (config.h linkcmd) in a 256-byte array, as main() leaves it",
              "startfiles/endfiles are the six-word lists of the pinned config.h"]
 }
@@ -25,7 +24,7 @@
 #endif
 #define MAXIN 3
 #define NBASE 5
-#define MAXWORDS 40
+#define MAXWORDS 28
 
 /* ------------------------------------------------------------------ ghosts */
 size_t g_n;                          /* ninputs */
@@ -43,13 +42,56 @@ int g_nexp;                          /* number of words */
 void *g_exp[MAXWORDS];               /* word j is this pointer ... */
 int g_expkind[MAXWORDS];             /* ... or (1) a string equal to "-o", (2) a string equal to "-l" */
 
+/* stand-ins for util.c's arrayaddptr / arrayaddbuf: append to a vector whose storage (MAXWORDS words) never has to
+   grow; slots are written under "loop counter == index" guards so that CBMC needs no array theory */
+void
+rec_arrayaddptr(struct array *a, void *v)
+{
+	size_t i;
+
+	__CPROVER_assert(a == &stages[LINK].cmd, "buildexe appends to the link command only");
+	__CPROVER_assert(a->len % sizeof(void *) == 0 && a->len / sizeof(void *) < MAXWORDS, "link command fits the harness vector");
+	for (i = 0; i < MAXWORDS; ++i) {
+		if (i == a->len / sizeof(void *))
+			((void **)a->val)[i] = v;
+	}
+	a->len += sizeof(void *);
+}
+
+void
+rec_arrayaddbuf(struct array *a, const void *src, size_t n)
+{
+	size_t k;
+
+	__CPROVER_assert(n % sizeof(void *) == 0 && n / sizeof(void *) <= 6, "word lists of at most 6 entries");
+	for (k = 0; k < 6; ++k) {
+		if (k < n / sizeof(void *))
+			rec_arrayaddptr(a, ((void *const *)src)[k]);
+	}
+}
+
+/* append one word to the documented command line */
+static void
+expect(int kind, void *p)
+{
+	int i;
+
+	for (i = 0; i < MAXWORDS; ++i) {
+		if (i == g_nexp) {
+			g_exp[i] = p;
+			g_expkind[i] = kind;
+		}
+	}
+	++g_nexp;
+}
+
 #define LINKER     (osm.child[0])
 #define LARGV      (LINKER.argv)
 #define ISTMP(i)   (g_ft[i] != OBJ)
 
 #define PRE(X) \
 	X(inputs != 0 && ninputs == g_n && g_n >= 1 && g_n <= MAXIN && output == g_out && g_out != 0) \
-	X(stages[LINK].cmd.val != 0 && stages[LINK].cmd.len == NBASE * sizeof(char *) && stages[LINK].cmd.cap == 256) \
+	X(stages[LINK].cmd.val != 0 && stages[LINK].cmd.len == NBASE * sizeof(char *) && stages[LINK].cmd.cap == MAXWORDS * sizeof(char *)) \
 	X(!flags.verbose && flags.nostdlib == g_nostdlib) \
 	X(osm.nattempt == 0 && osm.spawned == 0 && osm.nfail == 0 && osm.nunlink == 0 && osm.nwait == 0 && osm.exited == 0) \
 	X(SPAWN_MAY_FAIL || osm_tape.spawn_err[0] == 0) \
@@ -87,8 +129,7 @@ osm_at_exit(int status)
 
 static void buildexe_contract(struct input *inputs, size_t ninputs, char *output)
 REQUIRES(PRE)
-__CPROVER_assigns(stages[LINK].cmd, __CPROVER_object_whole(stages[LINK].cmd.val), osm, *g_errno)
-__CPROVER_frees(stages[LINK].cmd.val)
+__CPROVER_assigns(stages[LINK].cmd.len, __CPROVER_object_whole(stages[LINK].cmd.val), osm, *g_errno)
 ENSURES(POST);
 
 void
@@ -99,7 +140,7 @@ harness(void)
 	struct input in[MAXIN], *inputs = in;
 	size_t ninputs, i;
 	char *output = out_path, **v;
-	int n, j;
+	int j;
 
 	IN(size_t, in_n);
 	IN(bool, in_nostdlib);
@@ -132,38 +173,35 @@ harness(void)
 	}
 	flags.verbose = 0;
 	flags.nostdlib = in_nostdlib;
-	v = malloc(256);
+	v = malloc(MAXWORDS * sizeof *v);
 	__CPROVER_assume(v != 0);
 	stages[LINK].cmd.val = v;
-	stages[LINK].cmd.cap = 256;
+	stages[LINK].cmd.cap = MAXWORDS * sizeof *v;
 	stages[LINK].cmd.len = NBASE * sizeof *v;
 	stages[LINK].cmdbase = NBASE * sizeof *v;
 
 	/* the documented command line */
-	n = 0;
+	g_nexp = 0;
 	for (j = 0; j < NBASE; ++j) {
 		v[j] = w[j];
-		g_exp[n] = w[j]; g_expkind[n] = 0; ++n;
+		expect(0, w[j]);
 	}
-	g_exp[n] = 0; g_expkind[n] = 1; ++n;
-	g_exp[n] = output; g_expkind[n] = 0; ++n;
-	if (!in_nostdlib) {
-		for (j = 0; j < (int)LEN(startfiles); ++j) {
-			g_exp[n] = (void *)startfiles[j]; g_expkind[n] = 0; ++n;
-		}
+	expect(1, 0);
+	expect(0, output);
+	for (j = 0; j < (int)LEN(startfiles); ++j) {
+		if (!in_nostdlib)
+			expect(0, (void *)startfiles[j]);
 	}
-	for (i = 0; i < ninputs; ++i) {
-		if (in[i].lib) {
-			g_exp[n] = 0; g_expkind[n] = 2; ++n;
-		}
-		g_exp[n] = in[i].name; g_expkind[n] = 0; ++n;
+	for (i = 0; i < MAXIN; ++i) {
+		if (i < ninputs && in[i].lib)
+			expect(2, 0);
+		if (i < ninputs)
+			expect(0, in[i].name);
 	}
-	if (!in_nostdlib) {
-		for (j = 0; j < (int)LEN(endfiles); ++j) {
-			g_exp[n] = (void *)endfiles[j]; g_expkind[n] = 0; ++n;
-		}
+	for (j = 0; j < (int)LEN(endfiles); ++j) {
+		if (!in_nostdlib)
+			expect(0, (void *)endfiles[j]);
 	}
-	g_nexp = n;
 	g_n = ninputs; g_out = output; g_nostdlib = in_nostdlib; g_errno = &errno;
 
 	CALL(PRE, POST, buildexe(inputs, ninputs, output));
